@@ -1109,4 +1109,363 @@ theorem D_of_D (f g : Fld) (a b c c' : Nat) (i : List Nat) (hf : FullyValid f) (
   rw [getD_setAt_ne _ _ _ _ _ (Ne.symm hab)]
   rfl
 
+/-! ## results of grad/curl: labels, mapping; mixed differences -/
+
+
+
+theorem posVdims3 : posVdims 3 = some ["x", "y", "z"] := by rfl
+
+theorem posVmap3 (m : Mesh) (x y z : String) (h : m.region.dims = [x, y, z]) (hn : m.region.ndim = 3) :
+    posVmap m 3 = [("x", x), ("y", y), ("z", z)] := by
+  unfold posVmap
+  simp [hn, h, Fld.defaultVdims]
+
+/-- the gradient of a plain scalar field on a mesh with ≥ 2 axes carries positional labels and mapping -/
+theorem grad_meta (f g : Fld) (hp : Plain f) (hnd : 2 ≤ f.mesh.region.dims.length) (h : grad f = .ok g) :
+    g.vdims = posVdims g.nvdim ∧ g.vmap = posVmap g.mesh g.nvdim := by
+  unfold grad at h
+  split at h
+  · cases h
+  · split at h
+    · cases h
+    · rename_i ds hds
+      obtain ⟨l, _⟩ := mapE_ok _ _ _ hds
+      have hpl : ∀ d ∈ ds, Plain d := mapE_all _ Plain (fun x y hy => diffDim_plain hp hy) _ _ hds
+      cases ds with
+      | nil => simp [stack] at h
+      | cons d0 ds' =>
+        simp only [stack] at h
+        have hne : ds' ≠ [] := by
+          intro he; subst he; simp at l; omega
+        have p0 := hpl d0 (by simp)
+        exact stackGo_meta ds' d0 g hne (fun d hd => hpl d (by simp [hd])) (by rw [p0.2.2, p0.1]; simp) (by rw [p0.1]) h
+
+theorem curl_meta (f g : Fld) (h : curl f = .ok g) :
+    g.vdims = posVdims 3 ∧ g.vmap = posVmap f.mesh 3 := by
+  unfold curl at h
+  split at h
+  · cases h
+  · split at h
+    · cases h
+    · split at h
+      · cases h
+      · split at h
+        · split at h
+          · cases h
+          · rename_i cx hcx
+            split at h
+            · cases h
+            · rename_i cy hcy
+              split at h
+              · cases h
+              · rename_i cz hcz
+                split at h
+                · cases h
+                · rename_i cxy hcxy
+                  have px := curlComp_plain hcx
+                  have py := curlComp_plain hcy
+                  have pz := curlComp_plain hcz
+                  obtain ⟨m1, _, m2, _⟩ := lshift_ok hcxy
+                  obtain ⟨a1, a2⟩ := lshift_plain py (by rw [px.2.2, px.1]; simp) (by rw [px.1]) hcxy
+                  have hm : cx.mesh = f.mesh := by
+                    -- the mesh of a curl component is the operand's
+                    unfold curlComp compOfDim at hcx
+                    split at hcx
+                    · cases hcx
+                    · rename_i k1 hk1
+                      split at hcx
+                      · cases hcx
+                      · rename_i t1 ht1
+                        split at hcx
+                        · cases hcx
+                        · split at hcx
+                          · cases hcx
+                          · have e1 := (binop_ok hcx).1
+                            have e2 : t1.mesh = k1.mesh := by
+                              unfold diffDim at ht1
+                              split at ht1
+                              · cases ht1
+                              · split at ht1
+                                · cases ht1
+                                · exact (diff_ok ht1).1
+                            have e3 : k1.mesh = f.mesh := by
+                              cases hq : rDimLast f _ with
+                              | none => rw [hq] at hk1; cases hk1
+                              | some l =>
+                                rw [hq] at hk1
+                                cases hk : f.vdimIndex l with
+                                | none => simp only [getComp, hk] at hk1; cases hk1
+                                | some k => exact (getComp_ok hk hk1).1
+                            rw [e1, e2, e3]
+                  have := lshift_plain pz (by rw [a2, m2, px.1, py.1]; exact posVmap_length _ _) (by rw [m2, px.1]; omega) h
+                  rw [m2, px.1, py.1, m1, hm] at this
+                  exact this
+        · cases h
+
+
+/-- the stencil along `a` applied to the derivative along `b ≠ a` of component `c` -/
+theorem lineD_D (f : Fld) (a b c : Nat) (i : List Nat) (hf : FullyValid f) (hab : a ≠ b)
+    (hib : i.getD b 0 < f.mesh.nAt b) :
+    lineD (periodic f a) 1 (f.mesh.cellAt a) (f.mesh.nAt a) (fun k => D f b 1 c (setAt i a k)) (i.getD a 0)
+      = DD f a b c i := by
+  unfold DD
+  apply lineD_congr
+  intro k
+  rw [D_all_valid f b 1 c _ (Or.inl rfl) (fun j _ => hf _) (by rw [getD_setAt_ne _ _ _ _ _ (Ne.symm hab)]; exact hib)]
+  rw [getD_setAt_ne _ _ _ _ _ (Ne.symm hab)]
+  rfl
+
+/-- derivative along `a` of a field whose component `c'` is `∂_{b1} f_{c1} - ∂_{b2} f_{c2}` -/
+theorem D_of_sub (f g : Fld) (a b1 c1 b2 c2 c' : Nat) (i : List Nat) (hf : FullyValid f) (hg : FullyValid g)
+    (hm : g.mesh = f.mesh)
+    (hdata : ∀ i', (g.data.get i').getD c' 0 = D f b1 1 c1 i' - D f b2 1 c2 i')
+    (h1 : a ≠ b1) (h2 : a ≠ b2)
+    (hia : i.getD a 0 < f.mesh.nAt a) (hi1 : i.getD b1 0 < f.mesh.nAt b1) (hi2 : i.getD b2 0 < f.mesh.nAt b2) :
+    D g a 1 c' i = DD f a b1 c1 i - DD f a b2 c2 i := by
+  rw [D_all_valid g a 1 c' i (Or.inl rfl) (fun j _ => hg _) (by rw [hm]; exact hia)]
+  rw [← lineD_D f a b1 c1 i hf h1 hi1, ← lineD_D f a b2 c2 i hf h2 hi2, ← lineD_sub]
+  unfold periodic
+  rw [hm]
+  apply lineD_congr
+  intro k
+  unfold NDA.line
+  rw [hdata]
+
+theorem dims3 (f : Fld) (hdims : DimsOk f) (hnd : f.mesh.ndim = 3) :
+    ∃ x y z, f.mesh.region.dims = [x, y, z] ∧ x ≠ y ∧ x ≠ z ∧ y ≠ z := by
+  obtain ⟨hl, hd⟩ := hdims
+  rw [hnd] at hl
+  match hq : f.mesh.region.dims, hl with
+  | [x, y, z], _ =>
+    rw [hq] at hd
+    simp [hasDup] at hd
+    refine ⟨x, y, z, rfl, ?_, ?_, ?_⟩
+    · exact hd.1.1
+    · exact hd.1.2
+    · exact hd.2
+
+/-- positional mapping on a 3-d mesh: axis `d` is paired with the `d`-th of the labels x, y, z -/
+theorem rDimLast_pos (g : Fld) (x y z : String) (hxy : x ≠ y) (hxz : x ≠ z) (hyz : y ≠ z)
+    (hv : g.vmap = [("x", x), ("y", y), ("z", z)]) :
+    rDimLast g x = some "x" ∧ rDimLast g y = some "y" ∧ rDimLast g z = some "z" := by
+  unfold rDimLast
+  rw [hv]
+  have e1 : (z == x) = false := by simpa using (Ne.symm hxz)
+  have e2 : (y == x) = false := by simpa using (Ne.symm hxy)
+  have e3 : (z == y) = false := by simpa using (Ne.symm hyz)
+  simp [List.find?, e1, e2, e3]
+
+/-! ## the building blocks succeed on well-formed inputs -/
+
+
+
+theorem diff_succeeds (f : Fld) (ax o : Nat) (r : Bool) (ho : o = 1 ∨ o = 2) (hax : ax < f.mesh.ndim) :
+    ∃ g, C04.diff f ax o r = .ok g := by
+  unfold C04.diff
+  have h1 : ¬ (o ≠ 1 ∧ o ≠ 2) := by omega
+  have h2 : ¬ (f.mesh.ndim ≤ ax) := by omega
+  simp only [h1, h2, if_false]
+  exact ⟨_, rfl⟩
+
+theorem mk_plain_succeeds (mesh : Mesh) (data : NDA (List Rat)) (valid : NDA Bool) (unit : Option String)
+    (mp : List (String × String)) (hmp : mp.length ≤ 1) :
+    ∃ g, mkFld mesh 1 data valid none (some mp) unit = .ok g := by
+  unfold mkFld vdimsSet vmapSet
+  simp only [Fld.defaultVdims]
+  match mp, hmp with
+  | [], _ => simp
+  | [p], _ => simp
+
+theorem getComp_succeeds (f : Fld) (l : String) (k : Nat) (hk : f.vdimIndex l = some k) :
+    ∃ g, getComp f l = .ok g := by
+  unfold getComp
+  rw [hk]
+  apply mk_plain_succeeds
+  cases Fld.lookup f.vmap l <;> simp
+
+theorem binop_plain_succeeds (op : Rat → Rat → Rat) (a b : Fld) (ha : Plain a) (hb : Plain b)
+    (hm : a.mesh = b.mesh) : ∃ g, binop op a b = .ok g := by
+  unfold binop
+  have h2 : ¬ (a.nvdim ≠ 1 ∧ b.nvdim ≠ 1 ∧ a.nvdim ≠ b.nvdim) := by rw [ha.1, hb.1]; simp
+  simp only [hm, ne_eq, not_true_eq_false, if_false, h2]
+  rw [ha.1, hb.1, ha.2.1, ha.2.2]
+  simp only [Nat.max_self, Nat.lt_irrefl, and_false, if_false]
+  exact mk_plain_succeeds _ _ _ _ [] (by simp)
+
+theorem addNum_plain_succeeds (a : Fld) (q : Rat) (ha : Plain a) : ∃ g, addNum a q = .ok g := by
+  unfold addNum
+  rw [ha.1, ha.2.1, ha.2.2]
+  exact mk_plain_succeeds _ _ _ _ [] (by simp)
+
+theorem sumGo_plain_succeeds (ts : List Fld) : ∀ (acc : Fld), Plain acc →
+    (∀ t ∈ ts, Plain t ∧ t.mesh = acc.mesh) → ∃ g, sumGo acc ts = .ok g := by
+  induction ts with
+  | nil => intro acc _ _; exact ⟨acc, rfl⟩
+  | cons t ts ih =>
+    intro acc ha hs
+    obtain ⟨r, hr⟩ := binop_plain_succeeds (· + ·) acc t ha (hs t (by simp)).1 (hs t (by simp)).2.symm
+    have hr' : add acc t = .ok r := hr
+    simp only [sumGo, hr']
+    apply ih r (binop_plain ha (hs t (by simp)).1 hr)
+    intro t' ht'
+    exact ⟨(hs t' (by simp [ht'])).1, by rw [(binop_ok hr).1]; exact (hs t' (by simp [ht'])).2⟩
+
+theorem sumF_plain_succeeds (ts : List Fld) (m : Mesh) (hne : ts ≠ []) (hs : ∀ t ∈ ts, Plain t ∧ t.mesh = m) :
+    ∃ g, sumF ts = .ok g := by
+  cases ts with
+  | nil => exact absurd rfl hne
+  | cons t ts =>
+    obtain ⟨acc, hacc⟩ := addNum_plain_succeeds t 0 (hs t (by simp)).1
+    simp only [sumF, hacc]
+    apply sumGo_plain_succeeds ts acc (addNum_plain (hs t (by simp)).1 hacc)
+    intro t' ht'
+    exact ⟨(hs t' (by simp [ht'])).1, by rw [(addNum_ok hacc).1, (hs t (by simp)).2]; exact (hs t' (by simp [ht'])).2⟩
+
+theorem lshift_plain_succeeds (r d : Fld) (hd : Plain d) (hm : r.mesh = d.mesh)
+    (hr : r.vmap.length ≤ r.nvdim) (hr1 : 1 ≤ r.nvdim) : ∃ g, lshift r d = .ok g := by
+  unfold lshift
+  simp only [hm, ne_eq, not_true_eq_false, if_false]
+  have e1 : lshiftVdims r.vdims d.vdims = none := by
+    rw [hd.2.1]; unfold lshiftVdims; cases r.vdims <;> rfl
+  have e2 : lshiftVmap r d = none := by
+    unfold lshiftVmap
+    rw [hd.2.2, dictUpdate_nil, hd.1]
+    have : r.vmap.length ≠ r.nvdim + 1 := by omega
+    simp [this]
+  rw [e1, e2, hd.1]
+  unfold mkFld vdimsSet vmapSet
+  have h1 : ¬ (r.nvdim + 1 < 1) := by omega
+  have h2 : ¬ (r.nvdim + 1 = 1) := by omega
+  simp only [h1, h2, if_false]
+  by_cases hnd : r.nvdim + 1 = d.mesh.region.ndim
+  · simp only [hnd, if_true]
+    obtain ⟨l, hl, _⟩ := defaultVdims_some (d.mesh.region.ndim) (by omega)
+    rw [hl]
+    exact ⟨_, rfl⟩
+  · simp only [hnd, if_false]
+    exact ⟨_, rfl⟩
+
+theorem stackGo_plain_succeeds (ds : List Fld) : ∀ (acc : Fld), acc.vmap.length ≤ acc.nvdim → 1 ≤ acc.nvdim →
+    (∀ d ∈ ds, Plain d ∧ d.mesh = acc.mesh) → ∃ g, stackGo acc ds = .ok g := by
+  induction ds with
+  | nil => intro acc _ _ _; exact ⟨acc, rfl⟩
+  | cons d ds ih =>
+    intro acc ha ha1 hs
+    obtain ⟨r, hr⟩ := lshift_plain_succeeds acc d (hs d (by simp)).1 (hs d (by simp)).2.symm ha ha1
+    simp only [stackGo, hr]
+    obtain ⟨m1, _, m2, _⟩ := lshift_ok hr
+    obtain ⟨_, p2⟩ := lshift_plain (hs d (by simp)).1 ha ha1 hr
+    apply ih r
+    · rw [p2, m2, (hs d (by simp)).1.1]; exact posVmap_length _ _
+    · omega
+    · intro d' hd'
+      exact ⟨(hs d' (by simp [hd'])).1, by rw [m1]; exact (hs d' (by simp [hd'])).2⟩
+
+theorem mapE_succeeds {α β} (g : α → M β) : ∀ (xs : List α), (∀ x ∈ xs, ∃ y, g x = .ok y) →
+    ∃ ys, mapE g xs = .ok ys := by
+  intro xs
+  induction xs with
+  | nil => intro _; exact ⟨[], rfl⟩
+  | cons x xs ih =>
+    intro h
+    obtain ⟨y, hy⟩ := h x (by simp)
+    obtain ⟨ys, hys⟩ := ih (fun x' hx' => h x' (by simp [hx']))
+    exact ⟨y :: ys, by simp only [mapE, hy, hys]⟩
+
+theorem mem_dims_getD (f : Fld) (d : String) (hd : d ∈ f.mesh.region.dims) :
+    ∃ a, a < f.mesh.region.dims.length ∧ d = f.mesh.region.dims.getD a "" := by
+  obtain ⟨a, ha, rfl⟩ := List.getElem_of_mem hd
+  exact ⟨a, ha, by rw [List.getD_eq_getElem?_getD, List.getElem?_eq_getElem ha]; rfl⟩
+
+theorem diffDim_succeeds (f : Fld) (d : String) (o : Nat) (ho : o = 1 ∨ o = 2) (hdims : DimsOk f)
+    (hd : d ∈ f.mesh.region.dims) : ∃ g, diffDim f d o = .ok g ∧ g.mesh = f.mesh := by
+  obtain ⟨a, ha, rfl⟩ := mem_dims_getD f d hd
+  rw [diffDim_eq f a o hdims.2 ha]
+  obtain ⟨g, hg⟩ := diff_succeeds f a o true ho (by rw [← hdims.1]; exact ha)
+  exact ⟨g, hg, (diff_ok hg).1⟩
+
+
+theorem getD_mem_of_lt (vs : List String) (c : Nat) (hc : c < vs.length) : vs.getD c "" ∈ vs := by
+  rw [List.getD_eq_getElem?_getD, List.getElem?_eq_getElem hc]; simp
+
+theorem mem_getD (vs : List String) (v : String) (hv : v ∈ vs) : ∃ c, c < vs.length ∧ v = vs.getD c "" := by
+  obtain ⟨c, hc, rfl⟩ := List.getElem_of_mem hv
+  exact ⟨c, hc, by rw [List.getD_eq_getElem?_getD, List.getElem?_eq_getElem hc]; rfl⟩
+
+theorem divTerm_succeeds (f : Fld) (vs : List String) (hv : f.vdims = some vs) (hvd : hasDup vs = false)
+    (hdims : DimsOk f) (c a : Nat) (hc : c < vs.length) (ha : a < f.mesh.ndim)
+    (hm : Fld.lookup f.vmap (vs.getD c "") = some (f.mesh.region.dims.getD a "")) :
+    ∃ t, divTerm f (vs.getD c "") = .ok t ∧ Plain t ∧ t.mesh = f.mesh := by
+  unfold divTerm
+  rw [hm]
+  have hk := vdimIndex_getD f vs hv hvd c hc
+  obtain ⟨comp, hcomp⟩ := getComp_succeeds f _ c hk
+  rw [hcomp]
+  simp only []
+  have m1 := (getComp_ok hk hcomp).1
+  have hdd : DimsOk comp := by unfold DimsOk; rw [m1]; exact hdims
+  have hmem : f.mesh.region.dims.getD a "" ∈ comp.mesh.region.dims := by
+    rw [m1]; exact getD_mem_of_lt _ _ (by rw [hdims.1]; exact ha)
+  obtain ⟨t, ht, htm⟩ := diffDim_succeeds comp _ 1 (Or.inl rfl) hdd hmem
+  exact ⟨t, ht, diffDim_plain (getComp_plain hcomp) ht, by rw [htm, m1]⟩
+
+theorem allMapped_of (f : Fld) (vs : List String) (σ : Nat → Nat) (hdims : DimsOk f)
+    (hσ : ∀ c, c < vs.length → σ c < f.mesh.ndim ∧
+      Fld.lookup f.vmap (vs.getD c "") = some (f.mesh.region.dims.getD (σ c) "")) :
+    allMapped f vs = true := by
+  unfold allMapped
+  rw [List.all_eq_true]
+  intro v hv
+  obtain ⟨c, hc, rfl⟩ := mem_getD vs v hv
+  rw [(hσ c hc).2]
+  simp only [List.contains_eq_mem, decide_eq_true_eq]
+  exact getD_mem_of_lt _ _ (by rw [hdims.1]; exact (hσ c hc).1)
+
+theorem curlComp_succeeds (f : Fld) (vs : List String) (hv : f.vdims = some vs) (hvd : hasDup vs = false)
+    (hdims : DimsOk f) (d1 e1 d2 e2 c1 c2 : Nat)
+    (he1 : e1 < f.mesh.ndim) (he2 : e2 < f.mesh.ndim) (hc1 : c1 < vs.length) (hc2 : c2 < vs.length)
+    (hr1 : rDimLast f (f.mesh.region.dims.getD d1 "") = some (vs.getD c1 ""))
+    (hr2 : rDimLast f (f.mesh.region.dims.getD d2 "") = some (vs.getD c2 "")) :
+    ∃ t, curlComp f (f.mesh.region.dims.getD d1 "") (f.mesh.region.dims.getD e1 "")
+          (f.mesh.region.dims.getD d2 "") (f.mesh.region.dims.getD e2 "") = .ok t ∧ Plain t ∧ t.mesh = f.mesh := by
+  unfold curlComp compOfDim
+  rw [hr1, hr2]
+  simp only []
+  have i1 := vdimIndex_getD f vs hv hvd c1 hc1
+  have i2 := vdimIndex_getD f vs hv hvd c2 hc2
+  obtain ⟨k1, hk1⟩ := getComp_succeeds f _ c1 i1
+  obtain ⟨k2, hk2⟩ := getComp_succeeds f _ c2 i2
+  have a1 := (getComp_ok i1 hk1).1
+  have b1 := (getComp_ok i2 hk2).1
+  have hd1 : DimsOk k1 := by unfold DimsOk; rw [a1]; exact hdims
+  have hd2 : DimsOk k2 := by unfold DimsOk; rw [b1]; exact hdims
+  obtain ⟨t1, ht1, hm1⟩ := diffDim_succeeds k1 (f.mesh.region.dims.getD e1 "") 1 (Or.inl rfl) hd1
+    (by rw [a1]; exact getD_mem_of_lt _ _ (by rw [hdims.1]; exact he1))
+  obtain ⟨t2, ht2, hm2⟩ := diffDim_succeeds k2 (f.mesh.region.dims.getD e2 "") 1 (Or.inl rfl) hd2
+    (by rw [b1]; exact getD_mem_of_lt _ _ (by rw [hdims.1]; exact he2))
+  rw [hk1]
+  simp only [ht1, hk2, ht2]
+  have p1 := diffDim_plain (getComp_plain hk1) ht1
+  have p2 := diffDim_plain (getComp_plain hk2) ht2
+  obtain ⟨t, ht⟩ := binop_plain_succeeds (· - ·) t1 t2 p1 p2 (by rw [hm1, hm2, a1, b1])
+  exact ⟨t, ht, binop_plain p1 p2 ht, by rw [(binop_ok ht).1, hm1, a1]⟩
+
+theorem lapTerms_succeed (hf : Fld) (hp : Plain hf) (hdims : DimsOk hf) (hpos : 1 ≤ hf.mesh.ndim) :
+    ∃ ts, mapE (fun d => diffDim hf d 2) hf.mesh.region.dims = .ok ts ∧ ts ≠ [] ∧
+      ∀ t ∈ ts, Plain t ∧ t.mesh = hf.mesh := by
+  obtain ⟨ts, hts⟩ := mapE_succeeds (fun d => diffDim hf d 2) hf.mesh.region.dims (fun d hd => by
+    obtain ⟨g, hg, _⟩ := diffDim_succeeds hf d 2 (Or.inr rfl) hdims hd
+    exact ⟨g, hg⟩)
+  obtain ⟨l, e⟩ := mapE_ok _ _ _ hts
+  refine ⟨ts, hts, ?_, ?_⟩
+  · intro he; subst he; rw [hdims.1] at l; simp at l; omega
+  · intro t ht
+    obtain ⟨k, hk, rfl⟩ := List.getElem_of_mem ht
+    have hk' := e k (by omega) hk
+    obtain ⟨g, hg, hm⟩ := diffDim_succeeds hf (hf.mesh.region.dims[k]'(by omega)) 2 (Or.inr rfl) hdims (List.getElem_mem _)
+    rw [hg] at hk'
+    injection hk' with hk'
+    subst hk'
+    exact ⟨diffDim_plain hp hg, hm⟩
+
 end DFV.C05
